@@ -20,15 +20,24 @@ Proof. unfold mem. cbn [existsb]. apply orb_false_iff. Qed.
 Lemma plain_mem_tok m : plain_mem m = true -> exists t, mem_toks m = [t] /\ good_tok t (bmem_char m).
 Proof.
   destruct m as [c| |c]; cbn [plain_mem mem_toks bmem_char]; intros H.
-  - (* MEsc *) apply negb_true_iff in H. rewrite H, andb_false_r. unfold is_alnum in H. fold (in_rng 48 57 c) (in_rng 65 90 c) (in_rng 97 122 c) in H.
-    apply orb_false_iff in H. destruct H as [H H3]. apply orb_false_iff in H. destruct H as [H1 H2].
-    unfold esc_tok. rewrite H1. unfold is_ascii_alpha. rewrite H2, H3. cbn [orb].
-    destruct (rs_meta c) eqn:Hm.
-    + exists (TLit c). split; [reflexivity|]. repeat split; auto.
-    + exists (TRaw c). split; [reflexivity|]. unfold good_tok. cbn [is_raw].
-      assert (Hne : forall y, rs_meta y = true -> N.eqb c y = false).
+  - (* MEsc *)
+    destruct (peg_escaped_alnum_plain && is_alnum c) eqn:Hsw.
+    + apply andb_true_iff in Hsw. destruct Hsw as [_ Hal].
+      exists (TRaw c). split; [reflexivity|]. unfold good_tok. cbn [is_raw].
+      assert (Hne : forall y, is_alnum y = false -> N.eqb c y = false).
       { intros y Hy. destruct (N.eqb c y) eqn:E; [|reflexivity]. apply N.eqb_eq in E. subst. congruence. }
       repeat split; auto; apply Hne; reflexivity.
+    + assert (Hna : is_alnum c = false).
+      { destruct (is_alnum c) eqn:Hal; [|reflexivity]. rewrite andb_true_r in Hsw. rewrite Hsw in H. discriminate H. }
+      clear H. unfold is_alnum in Hna. fold (in_rng 48 57 c) (in_rng 65 90 c) (in_rng 97 122 c) in Hna.
+      apply orb_false_iff in Hna. destruct Hna as [H H3]. apply orb_false_iff in H. destruct H as [H1 H2].
+      unfold esc_tok. rewrite H1. unfold is_ascii_alpha. rewrite H2, H3. cbn [orb].
+      destruct (rs_meta c) eqn:Hm.
+      * exists (TLit c). split; [reflexivity|]. repeat split; auto.
+      * exists (TRaw c). split; [reflexivity|]. unfold good_tok. cbn [is_raw].
+        assert (Hne : forall y, rs_meta y = true -> N.eqb c y = false).
+        { intros y Hy. destruct (N.eqb c y) eqn:E; [|reflexivity]. apply N.eqb_eq in E. subst. congruence. }
+        repeat split; auto; apply Hne; reflexivity.
   - exists (TLit 91). split; [reflexivity|]. repeat split; auto.
   - (* MRaw *) apply negb_true_iff in H.
     apply mem_cons_false in H. destruct H as [H45 H]. apply mem_cons_false in H. destruct H as [H38 H].
